@@ -273,7 +273,7 @@ func TestC31Packetization(t *testing.T) {
 			sent = append(sent, meta)
 			byID[meta.ID] = i
 			want[meta.ID] = expFlits(m.Bytes, c.FlitSize, c.OvNum, c.OvShift)
-			agents[m.Dir].queue = append(agents[m.Dir].queue, trafficMsg{MsgMeta: meta})
+			agents[m.Dir].push(meta)
 		}
 		for _, a := range agents {
 			a.TickLater()
@@ -540,7 +540,7 @@ func c31One(c c31Case) (emitted, delivered int, sig, msg string) {
 		agents[1].ports[0].AcceptHook(rec)
 		meta := messaging.MsgMeta{ID: timing.GetIDGenerator().Generate(), Src: agents[0].ports[0].AsRemote(),
 			Dst: agents[1].ports[0].AsRemote(), TrafficBytes: c.Msgs[0].Bytes}
-		agents[0].queue = append(agents[0].queue, trafficMsg{MsgMeta: meta})
+		agents[0].push(meta)
 		agents[0].TickLater()
 		_ = reg.engine.RunUntil(timing.VTimeInPicoSec(20_000_000_000))
 	})
